@@ -317,6 +317,7 @@ type Query struct {
 	Names  []string // variables declared in the cone
 	Lits   map[string]string
 	Const  string // "" | "sat" | "unsat" when the formula folded to a constant
+	Rest   *Query // the assumptions sliced away (disjoint variables), for model completion
 }
 
 func buildQuery(conj ...*Term) *Query {
@@ -342,9 +343,101 @@ func buildQuery(conj ...*Term) *Query {
 	return q
 }
 
+var varsMemo = map[int][]int{}
+
+// varsOf returns the ids of the variables (and uninterpreted-function symbols) a term mentions.
+func varsOf(t *Term) []int {
+	if v, ok := varsMemo[t.id]; ok {
+		return v
+	}
+	set := map[int]bool{}
+	if t.Op == "var" {
+		set[t.id] = true
+	}
+	if strings.HasPrefix(t.Op, "uf:") {
+		set[-1-len(t.Op)] = true // all applications of one UF belong together
+	}
+	for _, a := range t.Args {
+		for _, v := range varsOf(a) {
+			set[v] = true
+		}
+	}
+	out := make([]int, 0, len(set))
+	for v := range set {
+		out = append(out, v)
+	}
+	varsMemo[t.id] = out
+	return out
+}
+
+func conjuncts(t *Term) []*Term {
+	if t.Op == "and" {
+		return t.Args
+	}
+	if t == TrueT {
+		return nil
+	}
+	return []*Term{t}
+}
+
+// sliceAssumes keeps the conjuncts of the assumptions that share variables (transitively) with the
+// goals. The dropped conjuncts constrain disjoint variables; they are solved separately when a model
+// has to be completed, so that dropping them can neither hide nor fabricate a counterexample.
+func sliceAssumes(assumes *Term, goals ...*Term) (kept, dropped []*Term) {
+	cs := conjuncts(assumes)
+	rel := map[int]bool{}
+	for _, g := range goals {
+		for _, v := range varsOf(g) {
+			rel[v] = true
+		}
+	}
+	in := make([]bool, len(cs))
+	for changed := true; changed; {
+		changed = false
+		for i, c := range cs {
+			if in[i] {
+				continue
+			}
+			vs := varsOf(c)
+			hit := len(vs) == 0
+			for _, v := range vs {
+				if rel[v] {
+					hit = true
+					break
+				}
+			}
+			if hit {
+				in[i] = true
+				changed = true
+				for _, v := range vs {
+					rel[v] = true
+				}
+			}
+		}
+	}
+	for i, c := range cs {
+		if in[i] {
+			kept = append(kept, c)
+		} else {
+			dropped = append(dropped, c)
+		}
+	}
+	return
+}
+
+// buildSliced builds the query for goals under the relevant slice of the assumptions.
+func buildSliced(assumes *Term, goals ...*Term) *Query {
+	kept, dropped := sliceAssumes(assumes, goals...)
+	q := buildQuery(append(kept, goals...)...)
+	if len(dropped) > 0 {
+		q.Rest = buildQuery(dropped...)
+	}
+	return q
+}
+
 // infeasible asks the in-line solver whether cond (with the current assumptions) is unsatisfiable.
 func (e *Engine) infeasible(st *State, cond *Term) bool {
-	q := buildQuery(st.assumes, cond, Not(e.panicC))
+	q := buildSliced(st.assumes, cond, Not(e.panicC))
 	if q.Const == "unsat" {
 		return true
 	}
